@@ -170,6 +170,7 @@ RollbackState       == StepKind({"SRollback", "SRollbackNoop"})
 RollbackIdentity    == StepKind({"IRollback", "IRollbackNoop"})
 RemoveHeader        == StepKind({"DelHeader"})
 RemoveCanonical     == StepKind({"DelCanon"})
+RemoveDiff          == StepKind({"DelDiff"})
 PreliminaryCopy     == StepKind({"InitPrelim", "LoadPrelim", "PCopy"})
 RegisterPreliminary == StepKind({"PfxP"})
 CommitPreliminary   == StepKind({"PCommit", "PCommitNoop", "PCommitLost", "PPrune"})
@@ -234,7 +235,7 @@ Done == stage = "end" /\ UNCHANGED vars
 MNext == \/ BeginMacro
          \/ ValidateBlock \/ CommitStateTree \/ PruneState \/ CommitIdentityTree \/ PruneIdentity
          \/ WriteHeader \/ WriteHead \/ WriteCanonical \/ WriteDiff \/ WriteIndexes \/ SetCurrentHead
-         \/ RollbackState \/ RollbackIdentity \/ RemoveHeader \/ RemoveCanonical
+         \/ RollbackState \/ RollbackIdentity \/ RemoveHeader \/ RemoveCanonical \/ RemoveDiff
          \/ PreliminaryCopy \/ RegisterPreliminary \/ CommitPreliminary \/ WritePreliminaryHead \/ ImportSnapshot
          \/ AtomicSwitch \/ DropReplaced \/ RemovePreliminaryHead
          \/ InitChain \/ InitState \/ EnsureIntegrityStep
